@@ -32,17 +32,18 @@ func undecided(format string, a ...interface{}) {
 
 // Prog is one loaded program.
 type Prog struct {
-	Dir     string
-	ModPath string // import path prefix of the packages that are analysed
-	Fset    *token.FileSet
-	Pkgs    []*packages.Package          // module packages, sorted by path
-	ByPath  map[string]*packages.Package // every loaded package
-	SSA     *ssa.Program
-	SPkg    map[string]*ssa.Package // module packages
-	cg      *callgraph.Graph
-	allFns  map[*ssa.Function]bool
-	modFns  []*ssa.Function // every function (incl. anonymous, methods) of module packages
-	GoFiles int
+	Dir       string
+	ModPath   string // import path prefix of the packages that are analysed
+	Fset      *token.FileSet
+	Pkgs      []*packages.Package          // module packages, sorted by path
+	ByPath    map[string]*packages.Package // every loaded package
+	SSA       *ssa.Program
+	SPkg      map[string]*ssa.Package // module packages
+	cg        *callgraph.Graph
+	calleeIdx map[ssa.CallInstruction][]*ssa.Function
+	allFns    map[*ssa.Function]bool
+	modFns    []*ssa.Function // every function (incl. anonymous, methods) of module packages
+	GoFiles   int
 }
 
 // LoadOpts selects what to load.
@@ -332,20 +333,29 @@ func (p *Prog) Callees(call ssa.CallInstruction) []*ssa.Function {
 	if f := call.Common().StaticCallee(); f != nil {
 		return []*ssa.Function{f}
 	}
-	n := p.CG().Nodes[call.Parent()]
-	if n == nil {
-		return nil
-	}
-	var out []*ssa.Function
-	seen := map[*ssa.Function]bool{}
-	for _, e := range n.Out {
-		if e.Site == call && !seen[e.Callee.Func] {
-			seen[e.Callee.Func] = true
-			out = append(out, e.Callee.Func)
+	if p.calleeIdx == nil {
+		p.calleeIdx = map[ssa.CallInstruction][]*ssa.Function{}
+		for _, n := range p.CG().Nodes {
+			for _, e := range n.Out {
+				if e.Site != nil {
+					dup := false
+					for _, g := range p.calleeIdx[e.Site] {
+						if g == e.Callee.Func {
+							dup = true
+						}
+					}
+					if !dup {
+						p.calleeIdx[e.Site] = append(p.calleeIdx[e.Site], e.Callee.Func)
+					}
+				}
+			}
+		}
+		for k, out := range p.calleeIdx {
+			sort.Slice(out, func(i, j int) bool { return out[i].String() < out[j].String() })
+			p.calleeIdx[k] = out
 		}
 	}
-	sort.Slice(out, func(i, j int) bool { return out[i].String() < out[j].String() })
-	return out
+	return p.calleeIdx[call]
 }
 
 // ---- positions -------------------------------------------------------------------------
